@@ -368,6 +368,13 @@ impl UserRx {
         }
     }
 
+    /// The dispatcher advertises its window in whole segments of its current segment size,
+    /// which grows with path MTU discovery: below one such segment it advertises zero, and
+    /// flush() must then ask the reader to wake it up.
+    pub fn set_max_incoming_payload(&mut self, max_incoming_payload: NonZeroUsize) {
+        self.max_incoming_payload = max_incoming_payload;
+    }
+
     /// Inform the read half that the socket is closed - there will be no more data.
     pub fn mark_vsock_closed(&self) {
         let mut g = self.shared.locked.lock();
